@@ -146,6 +146,33 @@ def _update_patch_return_edges_to_match(
             )
 
 
+def _add_missing_fallthrough(
+    cache: ModifyCache, cfg: gtirb.CFG, end_block: gtirb.ByteBlock
+) -> None:
+    """
+    Adds a fallthrough edge from an empty block at the end of a modified
+    block to the next code block. When the original block ended in an
+    instruction that does not fall through (e.g. a return or jump) there is
+    no such edge, but if that instruction is removed or code is placed after
+    it, whatever now sits at the end falls through to the next block.
+    """
+    if not isinstance(end_block, gtirb.CodeBlock) or end_block.size:
+        return
+
+    if any(_is_fallthrough_edge(edge) for edge in end_block.outgoing_edges):
+        return
+
+    _, next_block = cache.adjacent_blocks(end_block)
+    if isinstance(next_block, gtirb.CodeBlock):
+        cfg.add(
+            gtirb.Edge(
+                source=end_block,
+                target=next_block,
+                label=gtirb.Edge.Label(type=gtirb.Edge.Type.Fallthrough),
+            )
+        )
+
+
 def delete(
     cache: ModifyCache,
     block: gtirb.ByteBlock,
@@ -175,6 +202,8 @@ def delete(
         mid, end, _ = split_block(cache, end, length)
 
         remove_block(cache, mid)
+        assert block.ir
+        _add_missing_fallthrough(cache, block.ir.cfg, end)
         edit_byte_interval(bi, start.offset + offset, length, b"", {start})
         return _cleanup_modified_blocks(cache, [start, end])
 
@@ -264,6 +293,8 @@ def insert(
             cache, end_block, replacement_length
         )
         remove_block(cache, mid_block)
+
+    _add_missing_fallthrough(cache, cfg, end_block)
 
     # Stitch in the new blocks to the CFG
     if added_fallthrough:
